@@ -27,7 +27,7 @@ NumsQ == { Num(FALSE, <<0>>, 0), Num(FALSE, <<1>>, 0), Num(TRUE, <<1, 5>>, 0), N
 CellsQ == StrsQ \cup NumsQ
 CellsT == CellsQ \cup { Str(<<34, 34>>), Str(<<32, 97, 32>>), Str(<<34, 44, 34>>), Str(<<97, 59, 39, 98>>),
                         Num(TRUE, <<9, 9, 9, 9, 9, 9, 9, 9, 9, 9, 9, 9, 9, 9, 9>>, 14), Num(FALSE, <<2, 5>>, 1),
-                        Num(TRUE, <<1, 2, 5>>, -3), Num(FALSE, <<1, 7, 9, 7, 6, 9, 3, 1, 3, 4, 8, 6, 2, 3, 2>>, 308),
+                        Num(TRUE, <<1, 2, 5>>, -3), Num(FALSE, <<1, 7, 9, 7, 6, 9, 3, 1, 3, 4, 8, 6, 2, 3, 1>>, 308),
                         Num(FALSE, <<2, 2, 2, 5, 0, 7, 3, 8, 5, 8, 5, 0, 7, 2>>, -308), Num(FALSE, <<1, 2, 3, 4, 5, 6, 7, 8, 9, 0, 1, 2, 3, 4, 5>>, -100) }
 NoCells == {}
 NoLines == {}
